@@ -1,6 +1,6 @@
 (** C07 — entry points of the correspondence check (model side). *)
 From Coq Require Import ZArith List Bool Arith.
-From KV Require Import Base.Corr C07.Model.
+From KV Require Import Base.Corr C03.Model C07.Model C07.Multi.
 Import ListNotations.
 Local Open Scope Z_scope.
 
@@ -12,7 +12,15 @@ Inductive case :=
 (** one buffer, finer steps, driven on the real [triple_buffer] crate: token 0 = the next step
     of the writer (fill first half / fill second half / [publish]); 1 = the reader's
     [update()] (dirty load and, if set, the swap); 2 = the reader's next copy step. *)
-| CSemi (prog : list (Z * Z)) (toks : list Z).
+| CSemi (prog : list (Z * Z)) (toks : list Z)
+(** the multi-kind layer on a real handle: [h] is a history of whole calls, [(k, x, y)] with
+    [k >= 0] the handle method of kind [k] (numbering of [Multi.v]) with value [(x, y)], [k < 0] one
+    audio callback.  [rk]: 0 = static sound, observable after every callback: the handle's
+    [state()]; 1 = static sound, [state()] and the position (whole seconds, as reported one
+    callback later); 2 = streaming sound, the kinds read on the audio thread, [state()];
+    3 = sub-track, [state()]; 4 = sub-track with a static sound on it, both [state()]s
+    ([start] = 10 * track state + sound state).  [start]: the playback state before the history. *)
+| CMulti (rk : Z) (start : Z) (h : list (Z * Z * Z)).
 
 Definition enc_rets (r : list (nat * option (nat * val))) : list Z :=
   flat_map (fun e => match e with
@@ -51,6 +59,25 @@ Fixpoint semi_run (s : sys) (toks : list Z) : list Z * sys :=
               let '(o, sf) := semi_run s' r in (semi_obs s' ++ o, sf)
   end.
 
+Definition ev_of (o : Z * Z * Z) : ev :=
+  match o with (k, x, y) => if k <? 0 then Callback else Issue (Z.to_nat k) (x, y) end.
+(** [post]: what [process] does to the modelled state after the commands were read *)
+Fixpoint multi_obs {St : Type} (apply : nat -> val -> St -> St) (order : list nat) (post : St -> St)
+    (obs : St -> list Z) (h : list (Z * Z * Z)) (r : res St) : list Z :=
+  match h with
+  | [] => []
+  | o :: t =>
+      match ev_of o with
+      | Callback =>
+          let r1 := m_callback apply order r in
+          let r2 := Res (m_slots r1) (post (m_state r1)) (m_ncb r1) (m_log r1) in
+          obs (m_state r2) ++ multi_obs apply order post obs t r2
+      | Issue k v => multi_obs apply order post obs t (m_issue k v r)
+      end
+  end.
+Definition snd_code (s : sndst) : Z := state_code (ps (sn_psm s)).
+Definition trk_code (t : trk) : Z := state_code (ps (tk_psm t)).
+
 Definition run (c : case) : list Z :=
   match c with
   | CCoarse K ops =>
@@ -60,4 +87,16 @@ Definition run (c : case) : list Z :=
   | CSemi prog toks =>
       let '(o, s) := semi_run (init (map (fun v => (0%nat, v)) prog)) toks in
       o ++ (-1) :: enc_rets (rets (bufs s 0%nat))
+  | CMulti rk start h =>
+      if rk =? 0 then
+        multi_obs snd_apply static_order (fun s => s) (fun s => [snd_code s]) h (m_init (snd_init start))
+      else if rk =? 1 then
+        multi_obs snd_apply static_order snd_process (fun s => [snd_code s; sn_heard s]) h (m_init (snd_init start))
+      else if rk =? 2 then
+        multi_obs snd_apply streaming_order (fun s => s) (fun s => [snd_code s]) h (m_init (snd_init start))
+      else if rk =? 3 then
+        multi_obs trk_apply trk_order (fun t => t) (fun t => [trk_code t]) h (m_init (Trk (psm_of_code start) 0))
+      else
+        multi_obs ts_apply ts_order (fun s => s) (fun s => [trk_code (fst s); snd_code (snd s)]) h
+          (m_init (Trk (psm_of_code (start / 10)) 0, snd_init (start mod 10)))
   end.
